@@ -53,6 +53,8 @@ def templates(cfg):
         T(f"{dn}.left_sliced_alias_select", lambda p, t, u, d=d: ar(p, t) >> p.slice_head(2) >> p.alias("w") >> p.union(u, distinct=d) >> p.select(p.C.a))
         T(f"{dn}.self_then_verb", lambda p, t, u, d=d: t >> p.union(t >> p.alias("t2"), distinct=d) >> p.mutate(z=p.C.a + 1) >> p.filter(p.C.b.is_not_null()))
         T(f"{dn}.const_then_group", lambda p, t, u, d=d: t >> p.mutate(k=1) >> p.union(u >> p.mutate(k=2), distinct=d) >> p.group_by(p.C.k) >> p.summarize(n=p.count()))
+        T(f"{dn}.hidden_then_mutate_same_name", lambda p, t, u, d=d: t >> p.select(t.a) >> p.union(u >> p.select(u.a), distinct=d) >> p.mutate(b=p.C.a + 1))
+        T(f"{dn}.hidden_then_rename_to_hidden_name", lambda p, t, u, d=d: t >> p.select(t.a) >> p.union(u >> p.select(u.a), distinct=d) >> p.rename({"a": "b"}) >> p.mutate(a=p.C.b * 2))
         T(f"{dn}.hidden_then_rename", lambda p, t, u, d=d: t >> p.mutate(b=t.a + 1) >> p.union(u, distinct=d) >> p.rename({"b": "z"}) >> p.mutate(b=p.C.z))
         T(f"{dn}.hidden_then_join", lambda p, t, u, d=d: t >> p.mutate(b=t.a + 1) >> p.union(u, distinct=d) >> p.alias("x") >> p.inner_join(u >> p.alias("y") , p.C.a == p.C.a) if False else t >> p.mutate(b=t.a + 1) >> p.union(u, distinct=d) >> p.mutate(b=p.C.b * 2, c=p.C.a))
     from . import temporal
